@@ -128,6 +128,7 @@ ENUMERATED = True
 
 
 CHUNK = 1
+CHUNK_TIMEOUT = 3000
 
 
 def n_runs(tier: str) -> int:
